@@ -298,7 +298,7 @@ pub fn strategy() -> BoxedStrategy<Case> {
 pub fn run(ctx: &Ctx) {
     ctx.set_rule("model-based: per case a fresh real tftpd with a generated configuration {read-only, overwrite, keep-on-error, single/multi port, shared/distinct directories} and a history of 1-11 requests, each RRQ or WRQ of a target in {existing short, existing long, missing, in subdirectory existing/missing, existing zero-length, leading-slash spelling} with one of 5 option sets; uploads of 0..3500 bytes are completed (10% are aborted by a client ERROR). A reference decision table predicts refusal (ERROR 2 read-only / ERROR 6 exists without overwrite / ERROR 1 not found - from the listening port, followed by nothing) or acceptance; a model filesystem is updated and compared with the real send and receive trees (every file, every byte) after every step, so a refused request that changes anything, an overwrite that leaves old bytes behind, or a wrong download is caught at the step where it happens. Non-trivial = the history contains a refusal and a completed transfer; distinct = distinct cases.");
     let dirs = DirPool::new(ctx, "c06");
-    explore_n(ctx, "random", ctx.tier.pick(6_000, 120_000), shards(), 48, strategy, |c: &Case, o| dirs.with(|d| judge(d, c, o)));
+    explore_n(ctx, "random", ctx.tier.pick(4_000, 120_000), shards(), 48, strategy, |c: &Case, o| dirs.with(|d| judge(d, c, o)));
 }
 
 pub fn replay(ctx: &Ctx, part: &str, case: &Value) -> bool {
